@@ -85,6 +85,15 @@ def gen_case(rng, tier="quick"):
         case["steps"] = rng.randrange(2, 5)
     if api == "compute_dynamics_with_field":
         case["nsys"] = _pick(rng, [1, 2])
+    if api in ("compute_dynamics", "compute_dynamics_with_field", "tempo",
+               "mean_field_tempo", "pt_tempo", "gibbs_tempo") \
+            and rng.random() < 0.05:
+        # a long computation: many progress updates, many timer generations
+        case["steps"] = rng.randrange(40, 131)
+        if api in ("tempo", "pt_tempo", "gibbs_tempo", "mean_field_tempo"):
+            # every evaluation of the spectral density is a yield point
+            # there: keep the event log bounded
+            case["steps"] = rng.randrange(33, 70)
     # the convenience front ends run the same progress scopes
     case["shortcut"] = api in ("tempo", "pt_tempo", "gibbs_tempo",
                                "correlations") and rng.random() < 0.35
@@ -131,6 +140,8 @@ def gen_case(rng, tier="quick"):
         "jw": _pick(rng, [[0, 3, 2, 2, 4, 1], [0, 1, 1, 1, 6, 2],
                           [0, 6, 3, 2, 1, 0], [0, 0, 0, 1, 1, 1]]),
     }
+    if case["steps"] >= 33 and case["sched"]["p_switch"] > 0.05:
+        case["sched"]["p_switch"] = 0.05     # bounded event log
     return case
 
 
@@ -143,6 +154,12 @@ def shrink(case):
         i, j, v = case["directed"]
         if v == "update":
             out.append(dict(case, directed=[i, j, "end"]))
+    if case["steps"] > 12:
+        c = dict(case); c["steps"] = case["steps"] // 2
+        if c.get("fault") and "k" in c["fault"]:
+            c["fault"] = dict(c["fault"]); c["fault"]["k"] = min(
+                c["fault"]["k"], c["steps"] - 1)
+        out.append(c)
     if case["steps"] > 2:
         c = dict(case); c["steps"] = case["steps"] - 1
         if c.get("fault") and "k" in c["fault"]:
@@ -188,6 +205,10 @@ def prepare_worker():
                 _LIB["%s-%d" % (c, n)] = models.make_pt(c, steps=n, dkmax=2)
             _LIB["z2-%d" % n] = models.make_pt("z", steps=n, dkmax=2,
                                                 alpha=0.05)
+        # for the long computations
+        _LIB["z-long"] = models.make_pt("z", steps=130, dkmax=3)
+        _LIB["x-long"] = models.make_pt("x", steps=130, dkmax=2)
+        _LIB["z2-long"] = models.make_pt("z", steps=130, dkmax=2, alpha=0.05)
 
 
 class _Env:
@@ -305,6 +326,8 @@ def _pts(case, n, exact=False):
     names = [case["pt"], "z2"][:case.get("npts", 1)]
     if exact:
         names = ["%s-%d" % (nm, n) for nm in names]
+    elif n > 6:
+        names = [nm + "-long" for nm in names]
     pts = [_LIB[nm] for nm in names]
     if f.get("kind") in ("cap", "shape"):
         k = min(f["k"], n - 1)
